@@ -725,7 +725,7 @@ MessageReceivedFromGateway(const MessageRef & msgRef, void * userData)
                }
                else if ((fn == PR_NAME_KEYS)||(fn == PR_NAME_FILTERS))
                {
-                  (void) msg.MoveName(fn, _defaultMessageRouteMessage);
+                  (void) msg.CopyName(fn, _defaultMessageRouteMessage);  // copy, don't move:  the field still has to be copied into (_parameters) below, and (fn) refers to the field's name inside (msg)
                   updateDefaultMessageRoute = true;
                }
                else if (fn == PR_NAME_SUBSCRIBE_QUIETLY)
